@@ -1,6 +1,7 @@
 package engine
 
 import (
+	"io"
 	"bufio"
 	"encoding/json"
 	"fmt"
@@ -88,6 +89,19 @@ func Replay(p *Program, repoDir, path, work string) int {
 	return 2
 }
 
+// runGoTestOverlay injects the Go test file at path into its package (named on its first lines) with go test -overlay
+// and runs it against the tree at repoDir; ok reports whether the test passed.
+func runGoTestOverlay(repoDir, path, work string) (string, bool) {
+	old := os.Stdout
+	r, w, _ := os.Pipe()
+	os.Stdout = w
+	code := replayGoTest(repoDir, path, work)
+	w.Close()
+	os.Stdout = old
+	data, _ := io.ReadAll(r)
+	return string(data), code == 0
+}
+
 func replayGoTest(repoDir, path, work string) int {
 	f, err := os.Open(path)
 	if err != nil {
@@ -126,7 +140,7 @@ func replayGoTest(repoDir, path, work string) int {
 	ov := filepath.Join(work, "overlay.json")
 	ovData, _ := json.Marshal(map[string]map[string]string{"Replace": {target: abs}})
 	_ = os.WriteFile(ov, ovData, 0o644)
-	cmd := exec.Command("go", "test", "-overlay", ov, "-vet=off", "-count=1", "-timeout", "120s", "-run", "Replay|Seed|seed|ZZ|LhvWitness", "./"+strings.TrimPrefix(pkgDir, "luahelper-lsp/"))
+	cmd := exec.Command("go", "test", "-overlay", ov, "-vet=off", "-count=1", "-timeout", "120s", "-run", "Replay|Seed|seed|ZZ|LhvWitness|Bounded", "./"+strings.TrimPrefix(pkgDir, "luahelper-lsp/"))
 	cmd.Dir = filepath.Join(repoDir, "luahelper-lsp")
 	cmd.Env = append(os.Environ(), "GOFLAGS=-mod=mod", "GOPROXY=off", "GOSUMDB=off", "GOTOOLCHAIN=local")
 	out, err := cmd.CombinedOutput()
